@@ -15,6 +15,9 @@ FALSE = ("int", 0, "bool")
 UNIT = ("unit",)
 
 
+# log level assumed by evaluators built without an explicit one (common.at_log_levels runs a rule set at both extremes)
+DEFAULT_LOG_ON = False
+
 # external callees whose function-valued argument a rule set analyses by itself (pattern -> the rule that does)
 ANALYSED_SINKS = {r"^serial_core::SerialPort::reconfigure$": "C20.O1 runs the settings closure path by path and admits nothing but the five setters in it"}
 
@@ -286,10 +289,10 @@ class Evaluator:
     MAX_PATHS = 20000
     MAX_DEPTH = 12
 
-    def __init__(self, prog, models, log_on=False, hooks=None, no_inline=None):
+    def __init__(self, prog, models, log_on=None, hooks=None, no_inline=None):
         self.prog = prog
         self.models = models
-        self.log_on = log_on
+        self.log_on = DEFAULT_LOG_ON if log_on is None else log_on
         self.hooks = hooks or {}
         self.no_inline = no_inline or (lambda fn: False)
         self.fnrefs = {}
@@ -432,6 +435,19 @@ class Evaluator:
         if k == "downcast":
             if v[0] == "adt" and v[2] == e[1]:
                 return self.update(st, v, projs[1:], val, where)
+            # a write through `(v as Variant).f` happens only on a path that matched that variant: expose it
+            ap = None
+            if v[0] == "app" and v[1] == "into_cow":
+                ap = "alloc::borrow::Cow"
+            else:
+                ty = term_type(v) or ""
+                ap = ty.split("<")[0].lstrip("&").replace("mut ", "").strip() or None
+            a = self.adt(ap) if ap else None
+            if a and a.get("kind") == "enum" and e[1] < len(a["variants"]):
+                var = a["variants"][e[1]]
+                base = ("proj", v, ("downcast", e[1], var["name"]))
+                fields = tuple(("proj", base, ("field", i, f["ty"]["s"])) for i, f in enumerate(var["fields"]))
+                return self.update(st, ("adt", a["path"], e[1], var["name"], fields), projs[1:], val, where)
             raise Unsupported("write through downcast of %r at %s" % (v[0], where))
         if k == "index":
             if v[0] == "bytes" and e[1][0] == "int" and not projs[1:] and val[0] == "int":
@@ -937,7 +953,10 @@ class Evaluator:
                     raise Unsupported("Iterator::%s: more than 600 concrete iterations" % kind)
             fnj = {"name": "core::iter::traits::iterator::Iterator::next", "path": "core::iter::traits::iterator::Iterator::next", "args": [], "item": "next", "trait": "core::iter::traits::iterator::Iterator"}
             ci = CallInfo(self, st, act, fnj, fnj["name"], [("ref", ("loc", fid, 1, ()), True)], slot(4), 1, w)
-            return self.apply_results(ci, m_iter_next(ci))
+            nx = m_iter_next(ci)
+            if nx is None:
+                raise Unsupported("Iterator::%s over %s: no model of its next()" % (kind, fmt_term(fr[1])[:80]))
+            return self.apply_results(ci, nx)
         if act.block == 1:
             opt = fr[4]
             if not (opt[0] == "adt" and opt[3] in ("Some", "None")):
@@ -1219,11 +1238,17 @@ class Evaluator:
             if n > 600:
                 raise Unsupported("loop at bb%d of %s: more than 600 concrete iterations" % (h, act.fn["name"]))
             return None
+        def outer_frames():
+            # locals of the other live frames: a loop in an inlined callee (or a closure run by a native combinator) changes its
+            # caller's locals through the &mut references it was given
+            return {fid: dict(f2) for fid, f2 in st.frames.items() if fid != act.fid}
+
         if snap is None:
-            act.visits[h] = (dict(fr), dict(st.heap), 1, len(act.visits))
+            act.visits[h] = (dict(fr), dict(st.heap), 1, len(act.visits), outer_frames())
             act.cvisits[("keys", h)] = frozenset(st.cons.keys())
             return None
-        old_fr, old_heap, n, order = snap
+        old_fr, old_heap, n, order = snap[:4]
+        old_outer = snap[4] if len(snap) > 4 else {}
         # a new iteration: the generic item terms ("item", iterator, site) now stand for another element, so what was learned
         # about them during the previous iteration is forgotten (facts that held before the loop started are about other,
         # unchanged items and stay)
@@ -1268,6 +1293,33 @@ class Evaluator:
                 widened.append("_%d" % l)
                 if old_fr[l] != wv:
                     changed = True
+        for fid2, old2 in old_outer.items():
+            fr2 = st.frames.get(fid2)
+            if fr2 is None:
+                continue
+            for l, v in list(fr2.items()):
+                if l not in old2:
+                    continue
+                lk = "f%d_%d" % (fid2, l)
+                if old2[l] == v:
+                    if v[0] == "seq":
+                        act.cvisits[("idle", h, lk)] = True
+                        if any(i[0] == "mapped" for i in v[1]):
+                            fr2[l] = ("seq", tuple(("mapped_some",) + i[1:] if i[0] == "mapped" else i for i in v[1]))
+                            changed = True
+                    continue
+                sm = seq_summary(old2[l], v, act.cvisits.get(("idle", h, lk), False))
+                if sm is not None:
+                    if sm != old2[l]:
+                        changed = True
+                    fr2[l] = sm
+                    continue
+                wv = wname("local", lk)
+                if v != wv:
+                    fr2[l] = wv
+                widened.append(lk)
+                if old2[l] != wv:
+                    changed = True
         for c, v in list(st.heap.items()):
             ov = old_heap.get(c)
             if ov is None or ov == v:
@@ -1299,7 +1351,7 @@ class Evaluator:
                 if mentions(t, wsyms):
                     del st.cons[t]
         st.emit(("widen", "bb%d" % h, tuple(widened), act.fn["path"]))
-        act.visits[h] = (dict(fr), dict(st.heap), n + 1, order)
+        act.visits[h] = (dict(fr), dict(st.heap), n + 1, order, outer_frames())
         return None
 
     # ---- branching ----------------------------------------------------------------
@@ -1769,6 +1821,9 @@ class Evaluator:
                 if isinstance(val, tuple) and val and val[0] == "panic!":
                     s2.emit(("panic", val[1], (), ci.w))
                     out.append(Path("panic", None, s2, val[1]))
+                elif isinstance(val, tuple) and val and val[0] == "inline":
+                    self.push(s2, val[1], val[1]["body"], val[2], ci.dest, ci.target)
+                    out.append(s2)
                 else:
                     out.extend(self.finish_call(s2, a2, ci.dest, ci.target, val, ci.w))
             return out
